@@ -2,7 +2,7 @@
 // Decides properties C11 (order preservation), C12 (decode inverts encode) and
 // C15 (prefix-freedom contract) over complete finite domains.
 //
-// Build:  g++ -std=c++20 -O2 -mavx2 -I/repo -pthread codec.cpp -o codec
+// Build:  g++ -std=c++20 -O2 -mavx2 -DUNODB_DETAIL_VERIF_HOOKS -I/repo -pthread codec.cpp -o codec
 // Run:    codec --property C11|C12|C15 --tier quick|thorough --out r.json
 //               [--threads N] [--only <part>] [--replay-arg <s>]
 //
@@ -2487,6 +2487,18 @@ void init_canonical_nans() {
 }
 
 }  // namespace
+
+// The library's heap hooks (UNODB_DETAIL_VERIF_HOOKS): every block the encoder allocates is filled with a fixed pattern, so
+// that a result that depends on bytes the code under test never wrote is the same in the exploration and in every replay
+// (and differs from the zero-filled pages a fresh process would otherwise see).
+extern "C" {
+void unodb_verif_point(unsigned, const volatile void*, unsigned, std::uint64_t) noexcept {}
+void unodb_verif_spin() noexcept {}
+void unodb_verif_alloc(void* ptr, std::size_t size) noexcept {
+  if (ptr != nullptr) std::memset(ptr, 0xA5, size);
+}
+void unodb_verif_free(void*) noexcept {}
+}
 
 int main(int argc, char** argv) {
   Opt o;
